@@ -350,6 +350,7 @@ class Rig:
         """returns False if the step is not enabled on the real objects"""
         exc = ""
         n0 = len(self.errors)
+        before = set(id(p) for p in self.pool)
         try:
             ok = self._do(ev, a)
         except Hang:
@@ -362,7 +363,9 @@ class Rig:
             self.settle()
         except vtime.Livelock as e:
             exc = exc or "Livelock: %s" % e
+        rt = [p["rec"]["tab"] for p in self.pool if id(p) not in before and p["rec"]["fn"] == "FA"] if ev == "Rx" else []
         rec = {"ev": ev, "who": a.get("who", 0), "mid": a.get("mid", 0), "d": a.get("d", 0), "c": a.get("c") or NOCOPY,
+               "rt": rt[0] if rt else [],
                "exc": exc or (self.errors[n0][0] + " " + self.errors[n0][1] if len(self.errors) > n0 else ""),
                "st": self.proj()}
         self.evs.append(rec)
@@ -460,65 +463,112 @@ NOCOPY = {"to": 0, "fn": "-", "src": 0, "bc": False, "orig": 0, "mid": 0, "arg":
 # recording: random histories (T) and forced scripts (R)
 # ---------------------------------------------------------------------------------------------------------
 def record_random(L, res, rng, horizon_s, order="random", max_events=1500, own_mask=None):
-    """one random history on real stacks: at every instant a random selection of environment actions (broadcasts from
-    any node, register / unregister / stop renewing, delete entry, Read-FDT) interleaved with the due timers and the
-    deliveries of the parked copies (order: "fifo" = as the library's own loop would, "random", "lifo")."""
+    """one random history on real stacks.  Every foreign device follows a random life cycle (register; then keep renewing,
+    go silent, unregister or have its entry deleted; register again, ...).  Broadcasts from random nodes and Read-FDT
+    requests are placed at random instants and around every boundary of the life cycles (acknowledgement + TTL, + TTL + 5 s,
+    + TTL + 30 s, unregistration + 5 s / + 30 s, the instant of a deletion, the next renewal).  At every instant the
+    environment's actions, the due timers and the deliveries of the parked copies are interleaved (order: "fifo" = as the
+    library's own loop would, "random", "lifo")."""
+    import heapq
     rig = Rig(L, res, own_mask=own_mask)
     n = rig.n
     mgrs = L["managers"]
     hang = None
     mid = [0]
     script = []
+    agenda = []
+    seq = [0]
+    H = horizon_s * res
+    nprobe = [0]
+
+    def at(sec, what, *args):
+        u = rig.unit + int(round(sec * res))
+        if rig.unit <= u <= H:
+            seq[0] += 1
+            heapq.heappush(agenda, (u, seq[0], what, args))
 
     def do(ev, **a):
         ok = rig.step(ev, **a)
         if ok:
-            script.append([ev, a.get("who", 0), a.get("mid", 0), a.get("d", 0), a.get("c")])
+            e = rig.evs[-1]
+            script.append([ev, e["who"], e["mid"], e["d"], e["c"] if ev == "Rx" else None])
         return ok
 
-    def pick_rx():
-        if order == "fifo":
-            return 0
-        if order == "lifo":
-            return len(rig.pool) - 1
-        return rng.randrange(len(rig.pool))
+    def jit():
+        return rng.choice([0, 0, 0, 1, res - 1, rng.randrange(res)]) / float(res)
 
-    def env_action():
-        r = rng.random()
-        if r < 0.45 or not rig.fds:
-            who = rng.randint(1, n)
+    def probes(f, secs):
+        for sx in secs:
+            if nprobe[0] > 160:
+                return
+            nprobe[0] += 1
+            at(max(0, sx + rng.choice([-1, 0, 0, 0, 1]) + jit()), "bcast", rng.choice([f, 0, 0, 0]))
+            if mgrs and rng.random() < 0.35:
+                at(max(0, sx + rng.choice([-1, 0, 0, 1]) + jit()), "read", L["bbmdof"][f - 1])
+
+    def next_renewal_in(f):
+        x = rig.bip[f]
+        return max(0.0, x.taskTime - rig.T()) if x.isScheduled else 0.0
+
+    def run(what, args):
+        if what == "bcast":
+            who = args[0] or rng.randint(1, n)
             mid[0] += 1
             do("Originate", who=who, mid=mid[0])
-        elif r < 0.60:
-            f = rng.choice(rig.fds)
+        elif what == "read":
+            if mgrs:
+                do("ReadFDT", who=rng.choice(mgrs), d=args[0])
+        elif what == "reg":
+            f = args[0]
+            ttl = L["ttl"][f - 1]
             do("FDRegister", who=f)
-        elif r < 0.70:
-            do("FDUnregister", who=rng.choice(rig.fds))
-        elif r < 0.78:
-            do("FDStopRenew", who=rng.choice(rig.fds))
-        elif r < 0.88 and mgrs and rig.bbmds:
-            f = rng.choice(rig.fds)
+            probes(f, [0, ttl])
+            r = rng.random()
+            span = rng.choice([0, 0.5, 1, 1.5, 2.5]) * ttl + rng.choice([0, 0, 1, 2]) + jit()
+            if r < 0.30:
+                at(span, "stop", f)
+            elif r < 0.60:
+                at(span, "unreg", f)
+            elif r < 0.85 and mgrs:
+                at(span, "del", f)
+            else:
+                probes(f, [2 * ttl, 3 * ttl])
+        elif what == "stop":
+            f = args[0]
+            ttl = L["ttl"][f - 1]
+            last = next_renewal_in(f) - ttl          # seconds since (negative) the last renewal
+            if do("FDStopRenew", who=f):
+                base = last + ttl
+                probes(f, [base, base + 4, base + 5, base + 6, base + 29, base + 30, base + 31])
+                if rng.random() < 0.6:
+                    at(max(0, base + rng.choice([2, 6, 31, 33])) + jit(), "reg", f)
+        elif what == "unreg":
+            f = args[0]
+            if do("FDUnregister", who=f):
+                probes(f, [0, 4, 5, 6, 29, 30, 31])
+                if rng.random() < 0.7:
+                    at(rng.choice([0, 0, 1, 6, 31]) + jit(), "reg", f)
+        elif what == "del":
+            f = args[0]
+            nr = next_renewal_in(f)
             do("DeleteEntry", who=rng.choice(mgrs), d=L["bbmdof"][f - 1], mid=f)
-        elif mgrs and rig.bbmds:
-            do("ReadFDT", who=rng.choice(mgrs), d=rng.choice(rig.bbmds))
+            probes(f, [0, 0, nr, nr + 1])
+            r = rng.random()
+            if r < 0.3:
+                at(nr + rng.choice([0, 1, 3]) + jit(), "unreg", f)
+            elif r < 0.5:
+                at(nr + rng.choice([0, 1, 3]) + jit(), "stop", f)
 
     try:
-        # times (clock units) at which the environment acts: clustered around the life cycle of the registrations
-        marks = set()
         for f in rig.fds:
-            t = L["ttl"][f - 1]
-            for base in (0, t, t + 4, t + 5, t + 6, t + 29, t + 30, t + 31, 2 * t, 2 * t + 5):
-                for _ in range(2):
-                    u = int((base + rng.choice([-1, 0, 0, 0, 1]) + rng.randrange(res) / float(res)) * res)
-                    if 0 <= u <= horizon_s * res:
-                        marks.add(u)
-        for _ in range(rng.randint(3, 12)):
-            marks.add(rng.randrange(0, horizon_s * res + 1))
-        marks.add(0)
-        burst = {u: rng.randint(1, 4) for u in marks}
+            at(rng.choice([0, 0, 1, 2, 3]) + jit(), "reg", f)
+        for _ in range(rng.randint(3, 10)):
+            at(rng.randrange(0, H + 1) / float(res), "bcast", 0)
+        if not rig.fds:                                   # no foreign device: a burst of broadcasts from every node
+            for who in range(1, n + 1):
+                at(rng.choice([0, 0, 1]), "bcast", who)
         while len(rig.evs) < max_events:
             # everything that can happen at this instant, in a random interleaving
-            todo = burst.pop(rig.unit, 0)
             while len(rig.evs) < max_events:
                 choices = []
                 if rig.pool:
@@ -526,27 +576,27 @@ def record_random(L, res, rng, horizon_s, order="random", max_events=1500, own_m
                 timers = rig.due_timers_visible()
                 if timers:
                     choices += ["timer"]
-                if todo > 0:
+                if agenda and agenda[0][0] <= rig.unit:
                     choices += ["env"]
                 if not choices:
                     break
                 c = rng.choice(choices) if order != "fifo" else choices[0]
                 if c == "rx":
-                    do("Rx", i=pick_rx())
+                    do("Rx", i=0 if order == "fifo" else len(rig.pool) - 1 if order == "lifo" else rng.randrange(len(rig.pool)))
                 elif c == "timer":
                     k, who = rng.choice(timers) if order != "fifo" else timers[0]
                     do(k, who=who)
                 else:
-                    todo -= 1
-                    env_action()
+                    u, _, what, args = heapq.heappop(agenda)
+                    run(what, args)
             # advance to the next instant at which something is scheduled
-            nxt = [u for u in burst if u > rig.unit]
+            nxt = [agenda[0][0]] if agenda else []
             nd = rig.next_deadline_unit()
-            if nd is not None and nd > rig.unit:
+            if nd is not None and nd > rig.unit and agenda:
                 nxt.append(nd)
-            if any(rig.bip[b].bbmdFDT for b in rig.bbmds):
+            if agenda and any(rig.bip[b].bbmdFDT for b in rig.bbmds):
                 nxt.append((rig.unit // res + 1) * res)
-            nxt = [u for u in nxt if u <= horizon_s * res]
+            nxt = [u for u in nxt if rig.unit < u <= H]
             if not nxt:
                 break
             if not do("Tick", d=min(nxt) - rig.unit):
@@ -695,8 +745,9 @@ def graph_scripts(chk, name, L, c, rng, limit=None, workers=None):
 # random layouts at the property's sizes
 # ---------------------------------------------------------------------------------------------------------
 def random_layout(rng, small=False):
-    """1..5 subnets, 0..1 BBMD per subnet, 0..3 ordinary nodes per subnet, 0..4 foreign devices (TTL 1..300 s) homed on
-    subnets without a BBMD (those of the 1..5 that have none, or remote ones), full or partial tables, both mask kinds"""
+    """1..5 subnets, 0..1 BBMD per subnet, 0..3 ordinary nodes per subnet, 0..4 foreign devices (TTL 1..300 s), full or
+    partial tables, both mask kinds.  A foreign device is homed on a remote subnet or on any of the 1..5 subnets that its
+    own BBMD does not broadcast on (not the BBMD's subnet, not the target of one of its directed-broadcast entries)."""
     S = rng.randint(1, 3 if small else 5)
     role, subnet = [], []
     bb = {}
@@ -709,21 +760,6 @@ def random_layout(rng, small=False):
             role.append("simple")
             subnet.append(s)
     bbmds = sorted(bb.values())
-    nfd = rng.randint(0, 2 if small else 4) if bbmds else 0
-    homes = [s for s in range(1, S + 1) if s not in bb] + [S + 1, S + 2]
-    ttl_pool = [1, 2, 3, 4, 5, 6, 7, 10, 12, 30, 45, 60, 120, 300]
-    fds = []
-    for _ in range(nfd):
-        role.append("foreign")
-        subnet.append(rng.choice(homes))
-        fds.append(len(role))
-    n = len(role)
-    if n == 0:
-        role, subnet, n = ["simple"], [1], 1
-    bbmdof, ttl = [0] * n, [0] * n
-    for f in fds:
-        bbmdof[f - 1] = rng.choice(bbmds)
-        ttl[f - 1] = rng.choice(ttl_pool) if rng.random() < 0.8 else rng.randint(1, 300)
     full = rng.random() < 0.5
     bdt = {}
     for b in bbmds:
@@ -736,6 +772,23 @@ def random_layout(rng, small=False):
                 es.append((p, rng.random() < 0.4))
         rng.shuffle(es)
         bdt[b] = es
+    nfd = rng.randint(0, 2 if small else 4) if bbmds else 0
+    ttl_pool = [1, 2, 3, 4, 5, 6, 7, 10, 12, 30, 45, 60, 120, 300]
+    fds = {}
+    for _ in range(nfd):
+        b = rng.choice(bbmds)
+        bad = {subnet[b - 1]} | {subnet[p - 1] for p, d in bdt[b] if d}
+        homes = [s for s in range(1, S + 1) if s not in bad] + [S + 1, S + 2] * 2
+        role.append("foreign")
+        subnet.append(rng.choice(homes))
+        fds[len(role)] = b
+    n = len(role)
+    if n == 0:
+        role, subnet, n = ["simple"], [1], 1
+    bbmdof, ttl = [0] * n, [0] * n
+    for f, b in fds.items():
+        bbmdof[f - 1] = b
+        ttl[f - 1] = rng.choice(ttl_pool) if rng.random() < 0.8 else rng.randint(1, 300)
     nonf = [i for i in range(1, n + 1) if role[i - 1] != "foreign"]
     mgrs = sorted(rng.sample(nonf, min(len(nonf), 2))) if nonf else []
     own_mask = {b: rng.random() < 0.3 for b in bbmds}
@@ -867,6 +920,10 @@ LAYOUTS = {
     # three BBMDs, full tables with mixed masks, no foreign device
     "A4": layout(["bbmd", "bbmd", "simple", "bbmd", "simple"], [1, 2, 2, 3, 3], [0] * 5, [0] * 5,
                  {1: [(1, False), (2, True), (4, False)], 2: [(1, False), (2, False), (4, True)], 4: [(1, True), (2, False), (4, False)]}, []),
+    # the foreign device sits on the subnet of ANOTHER BBMD (which its own BBMD reaches by unicast): it hears that BBMD's
+    # re-broadcasts and must ignore them
+    "A5": layout(["bbmd", "bbmd", "simple", "foreign"], [1, 2, 2, 2], [0, 0, 0, 1], [0, 0, 0, 2],
+                 {1: [(1, False), (2, False)], 2: [(1, True), (2, False)]}, [3]),
     # two foreign devices at one BBMD
     "C1": layout(["bbmd", "foreign", "foreign"], [1, 2, 3], [0, 1, 1], [0, 1, 2], {1: [(1, False)]}, [1]),
     # two foreign devices at two BBMDs
@@ -877,7 +934,7 @@ LAYOUTS = {
 }
 
 
-def main(tier, seed):
+def main(tier, seed, parts="DRT"):
     chk = Check("C13", tier, seed)
     rng = random.Random(seed)
     thorough = tier == "thorough"
@@ -886,7 +943,7 @@ def main(tier, seed):
                 "validated by TLC against BBMD.tla; distinct = (layout, history); non-trivial = at least one broadcast crossing a BBMD or "
                 "one registration event")
     chk.assumptions = [
-        "foreign devices live on subnets without a BBMD (a foreign device on a subnet served by a BBMD hears broadcasts twice by design: sanity config X1)",
+        "a foreign device does not live on a subnet its own BBMD broadcasts on (the BBMD's subnet or the target of one of its directed-broadcast entries): there it hears broadcasts twice and its own back by design (sanity config X1)",
         "the medium is loss-free and zero-delay (vlan); the harness owns the delivery order of the datagram copies (any order, also non-FIFO)",
         "grace period of the property = 30 s (Annex J); the code's BBMD adds 5 s to the TTL, which refines it; model checking uses TTL 1..3 with "
         "the periods scaled to 2 / 3 / 4 s (BBMD / property / device's own expiry)",
@@ -897,28 +954,26 @@ def main(tier, seed):
     chk.extra["code_flags"] = {"StickyUnreg": sticky}
     onv = make_on_verdict(chk)
     # ---- D ----
-    D = [("B1_e3_t6", LB(1), consts(MaxEnv=3, MaxNow=6)), ("A1_e2_t3", LAYOUTS["A1"], consts(MaxEnv=2, MaxNow=3)),
+    D = [("B1_e3_t6", LB(1), consts(MaxEnv=3, MaxNow=6)), ("A1_e2_t2", LAYOUTS["A1"], consts(MaxEnv=2, MaxNow=2)),
          ("A2_e2_t2", LAYOUTS["A2"], consts(MaxEnv=2, MaxNow=2)), ("A3_e2_t2", LAYOUTS["A3"], consts(MaxEnv=2, MaxNow=2)),
-         ("A4_b5", LAYOUTS["A4"], consts(MaxEnv=0, MaxNow=1, MaxB=5))]
+         ("A4_b5", LAYOUTS["A4"], consts(MaxEnv=0, MaxNow=1, MaxB=5)), ("A5_e1_t1", LAYOUTS["A5"], consts(MaxEnv=1, MaxNow=1, MaxB=2))]
     if thorough:
-        D += [("B2_e4_t8", LB(2), consts(MaxEnv=4, MaxNow=8)), ("B3_e3_t9", LB(3), consts(MaxEnv=3, MaxNow=9)),
+        D += [("B2_e4_t8", LB(2), consts(MaxEnv=4, MaxNow=8)), ("B2_e3_t7", LB(2), consts(MaxEnv=3, MaxNow=7)), ("B3_e3_t9", LB(3), consts(MaxEnv=3, MaxNow=9)),
               ("B1_res2_e3_t10", LB(1), consts(MaxEnv=3, MaxNow=10, Res=2)),
               ("C1_e3_t5", LAYOUTS["C1"], consts(MaxEnv=3, MaxNow=5)), ("C2_e3_t3", LAYOUTS["C2"], consts(MaxEnv=3, MaxNow=3)),
               ("A1_e3_t4", LAYOUTS["A1"], consts(MaxEnv=3, MaxNow=4)), ("A2_e3_t4", LAYOUTS["A2"], consts(MaxEnv=3, MaxNow=4)),
               ("A1_b3", LAYOUTS["A1"], consts(MaxEnv=1, MaxNow=1, MaxB=3))]
-    else:
-        D += [("B2_e3_t7", LB(2), consts(MaxEnv=3, MaxNow=7))]
-    for name, L, c in D:
+    for name, L, c in (D if "D" in parts else []):
         run_mc(chk, name, L, c, timeout=1500)
     # vacuity: named deviations / an ill-formed layout must violate the invariants
     run_mc(chk, "dev_StickyUnreg", LB(1), consts(MaxEnv=3, MaxNow=3, StickyUnreg="TRUE"), expect=["ServedAtLeastTTL", "OncePerNode"])
     run_mc(chk, "dev_BGrace1", LB(2), consts(MaxEnv=1, MaxNow=4, BGrace=1, PGrace=2), expect=["ServedAtLeastTTL", "RenewsBeforeExpiry"])
-    run_mc(chk, "dev_BGraceAbovePGrace", LB(1), consts(MaxEnv=2, MaxNow=6, BGrace=3, PGrace=2), expect=["GoneAfterGrace", "UnregisterWithinGrace"])
+    run_mc(chk, "dev_BGraceAbovePGrace", LB(1), consts(MaxEnv=2, MaxNow=6, BGrace=3, PGrace=2), expect=["GoneAfterGrace", "UnregisterWithinGrace", "ListedIffLive"])
     run_mc(chk, "illformed_X1", LAYOUTS["X1"], consts(MaxEnv=1, MaxNow=1), expect=["OncePerNode", "NeverToOriginator"])
     # ---- R ----
     traces = []
     rc = consts(MaxNow=4 if thorough else 3, MaxEnv=3 if thorough else 2, MaxB=1, StickyUnreg="TRUE" if sticky else "FALSE", **CODE)
-    for sc in graph_scripts(chk, "R_B1_code_constants", LB(1), rc, rng, limit=4000 if thorough else 400):
+    for sc in graph_scripts(chk, "R_B1_code_constants", LB(1), rc, rng, limit=4000 if thorough else 300):
         t = record_script(LB(1), 1, sc)
         traces.append(t)
         chk.case(("R", json.dumps([x[:4] for x in sc])), nontrivial=True)
@@ -928,8 +983,8 @@ def main(tier, seed):
         L, own = random_layout(rng, small=(k % 3 == 0))
         fds = [i for i, r in enumerate(L["role"]) if r == "foreign"]
         tmax = max([L["ttl"][i] for i in fds] or [1])
+        res = rng.choice([1, 1, 2, 4])           # one clock resolution per layout (= one TLC run per layout)
         for j in range(nhist if fds else 1):
-            res = rng.choice([1, 1, 2, 4])
             horizon = min(2 * tmax + 45, 700 if thorough else 160)
             s = rng.randrange(1 << 30)
             t = record_random(L, res, random.Random(s), horizon, order=rng.choice(["random", "random", "fifo", "lifo"]),
